@@ -112,7 +112,7 @@ def execute_sym(case):
             out.append(core.crash_failure(PROP, e, 0, "get_ode_eqn"))
         for k, (x, t) in enumerate(case["points"]):
             try:
-                f = np.asarray(live.ode.ode(np.array(x, float), t), float)
+                f = core.num_array(live.ode.ode(np.array(x, float), t))
             except core.RunTimeout:
                 raise
             except Exception as e:
